@@ -646,6 +646,11 @@ def _xml_escape(t):
     return t.replace("&", "&amp;").replace("<", "&lt;").replace(">", "&gt;")
 
 
+def xml_text_ok(t):
+    """can the text be the content of an element of an XML 1.0 document and come back unchanged? (no control characters; \r is normalised)"""
+    return not any((ord(c) < 32 and c not in "\t\n") or ord(c) in (0x7f, 0xfffe, 0xffff) or 0xd800 <= ord(c) <= 0xdfff for c in t)
+
+
 IDENT = "<COMPU-METHOD><CATEGORY>IDENTICAL</CATEGORY></COMPU-METHOD>"
 
 
@@ -662,17 +667,26 @@ def xml_layer(L, kind, services, patterns):
             f'<DATA-OBJECT-PROP ID="{L}.lin"><SHORT-NAME>lin</SHORT-NAME><COMPU-METHOD><CATEGORY>LINEAR</CATEGORY><COMPU-INTERNAL-TO-PHYS><COMPU-SCALES>'
             f'<COMPU-SCALE><COMPU-RATIONAL-COEFFS><COMPU-NUMERATOR><V>1</V><V>1</V></COMPU-NUMERATOR><COMPU-DENOMINATOR><V>2</V></COMPU-DENOMINATOR>'
             f'</COMPU-RATIONAL-COEFFS></COMPU-SCALE></COMPU-SCALES></COMPU-INTERNAL-TO-PHYS></COMPU-METHOD>{_dct("A_UINT32", 32)}'
-            f'<PHYSICAL-TYPE BASE-DATA-TYPE="A_FLOAT64"/></DATA-OBJECT-PROP>')
+            f'<PHYSICAL-TYPE BASE-DATA-TYPE="A_FLOAT64"/></DATA-OBJECT-PROP>'
+            # byte fields of variable length (part numbers, serial numbers): length prefixed, and "the rest of the message"
+            f'<DATA-OBJECT-PROP ID="{L}.bfl"><SHORT-NAME>bfl</SHORT-NAME>{IDENT}<DIAG-CODED-TYPE BASE-DATA-TYPE="A_BYTEFIELD" '
+            f'xsi:type="LEADING-LENGTH-INFO-TYPE"><BIT-LENGTH>8</BIT-LENGTH></DIAG-CODED-TYPE><PHYSICAL-TYPE BASE-DATA-TYPE="A_BYTEFIELD"/></DATA-OBJECT-PROP>'
+            f'<DATA-OBJECT-PROP ID="{L}.bfe"><SHORT-NAME>bfe</SHORT-NAME>{IDENT}<DIAG-CODED-TYPE BASE-DATA-TYPE="A_BYTEFIELD" TERMINATION="END-OF-PDU" '
+            f'xsi:type="MIN-MAX-LENGTH-TYPE"><MAX-LENGTH>8</MAX-LENGTH><MIN-LENGTH>0</MIN-LENGTH></DIAG-CODED-TYPE>'
+            f'<PHYSICAL-TYPE BASE-DATA-TYPE="A_BYTEFIELD"/></DATA-OBJECT-PROP>')
     dtcdop = (f'<DTC-DOP ID="{L}.dtc"><SHORT-NAME>dtcdop</SHORT-NAME>{_dct("A_UINT32", 24)}<PHYSICAL-TYPE BASE-DATA-TYPE="A_UINT32"/>{IDENT}'
               f'<DTCS><DTC ID="{L}.dtc.k"><SHORT-NAME>known</SHORT-NAME><TROUBLE-CODE>291</TROUBLE-CODE><TEXT>x</TEXT></DTC></DTCS></DTC-DOP>')
     structs = (f'<STRUCTURE ID="{L}.Info"><SHORT-NAME>Info</SHORT-NAME><PARAMS>{_value("type", L + ".u8")}{_value("code", L + ".bf2")}</PARAMS></STRUCTURE>'
                f'<STRUCTURE ID="{L}.Item"><SHORT-NAME>Item</SHORT-NAME><PARAMS>{_value("type", L + ".u8")}</PARAMS></STRUCTURE>'
                f'<STRUCTURE ID="{L}.Sw"><SHORT-NAME>Sw</SHORT-NAME><PARAMS>{_value("ver", L + ".a2")}</PARAMS></STRUCTURE>'
                f'<STRUCTURE ID="{L}.Tag"><SHORT-NAME>Tag</SHORT-NAME><PARAMS>{_value("t", L + ".a2")}</PARAMS></STRUCTURE>'
-               f'<STRUCTURE ID="{L}.Cal"><SHORT-NAME>Cal</SHORT-NAME><PARAMS>{_value("stamp", L + ".f64")}</PARAMS></STRUCTURE>')
+               f'<STRUCTURE ID="{L}.Cal"><SHORT-NAME>Cal</SHORT-NAME><PARAMS>{_value("stamp", L + ".f64")}</PARAMS></STRUCTURE>'
+               f'<STRUCTURE ID="{L}.Hw"><SHORT-NAME>Hw</SHORT-NAME><PARAMS>{_value("sn", L + ".bfl")}</PARAMS></STRUCTURE>'
+               f'<STRUCTURE ID="{L}.Part"><SHORT-NAME>Part</SHORT-NAME><PARAMS>{_value("sn", L + ".bfl")}</PARAMS></STRUCTURE>')
     eopf = (f'<END-OF-PDU-FIELD ID="{L}.Items"><SHORT-NAME>Items</SHORT-NAME><BASIC-STRUCTURE-REF ID-REF="{L}.Item"/></END-OF-PDU-FIELD>'
             f'<END-OF-PDU-FIELD ID="{L}.Tags"><SHORT-NAME>Tags</SHORT-NAME><BASIC-STRUCTURE-REF ID-REF="{L}.Tag"/></END-OF-PDU-FIELD>'
-            f'<END-OF-PDU-FIELD ID="{L}.Cals"><SHORT-NAME>Cals</SHORT-NAME><BASIC-STRUCTURE-REF ID-REF="{L}.Cal"/></END-OF-PDU-FIELD>')
+            f'<END-OF-PDU-FIELD ID="{L}.Cals"><SHORT-NAME>Cals</SHORT-NAME><BASIC-STRUCTURE-REF ID-REF="{L}.Cal"/></END-OF-PDU-FIELD>'
+            f'<END-OF-PDU-FIELD ID="{L}.Parts"><SHORT-NAME>Parts</SHORT-NAME><BASIC-STRUCTURE-REF ID-REF="{L}.Part"/></END-OF-PDU-FIELD>')
     ddds = (f'<DIAG-DATA-DICTIONARY-SPEC><DTC-DOPS>{dtcdop}</DTC-DOPS><DATA-OBJECT-PROPS>{dops}</DATA-OBJECT-PROPS>'
             f'<STRUCTURES>{structs}</STRUCTURES><END-OF-PDU-FIELDS>{eopf}</END-OF-PDU-FIELDS></DIAG-DATA-DICTIONARY-SPEC>')
     comms = reqs = poss = negs = ""
@@ -681,7 +695,11 @@ def xml_layer(L, kind, services, patterns):
                   f'<POS-RESPONSE-REFS><POS-RESPONSE-REF ID-REF="{L}.{sn}.pr"/></POS-RESPONSE-REFS>'
                   f'<NEG-RESPONSE-REFS><NEG-RESPONSE-REF ID-REF="{L}.{sn}.nr"/></NEG-RESPONSE-REFS></DIAG-SERVICE>')
         reqs += f'<REQUEST ID="{L}.{sn}.rq"><SHORT-NAME>{sn}_rq</SHORT-NAME><PARAMS>{_const("sid", 0x22)}{_const("did", did)}</PARAMS></REQUEST>'
-        if did >= 4:      # floating point identification: stamp (double), ratio (single), scaled (uint32 -> (1 + x) / 2), cal.stamp, cals[].stamp
+        if did == 6:        # byte field identification: lp (length prefixed), hw.sn (in a structure), pn (the rest of the message)
+            body = f'{_value("lp", L + ".bfl")}{_value("hw", L + ".Hw")}{_value("pn", L + ".bfe")}'
+        elif did == 7:      # ... lp, hw.sn, parts[].sn (the items of a field)
+            body = f'{_value("lp", L + ".bfl")}{_value("hw", L + ".Hw")}{_value("parts", L + ".Parts")}'
+        elif did >= 4:      # floating point identification: stamp (double), ratio (single), scaled (uint32 -> (1 + x) / 2), cal.stamp, cals[].stamp
             body = (f'{_value("stamp", L + ".f64")}{_value("ratio", L + ".f32")}{_value("scaled", L + ".lin")}{_value("cal", L + ".Cal")}'
                     f'{_value("cals", L + ".Cals")}')
         elif did == 3:      # text identification: name (4 characters), sw.ver (2 characters), tags[].t (2 characters each)
